@@ -66,12 +66,14 @@ impl Ent {
     fn any() -> Ent {
         Ent { base: kani::any(), size: kani::any(), tag: kani::any() }
     }
-    /// the `memory_range()` formula shared by all range-bearing types of the workspace
+    /// Ranges as callers hand them in: the most permissive of the workspace's formulae
+    /// (`finish_item` for line records: `address.checked_add(size - 1)`), so that a range may
+    /// end exactly at 2^64-1; the `memory_range()` formula of the other types is a subset.
     fn range(&self) -> Option<Range<u64>> {
         if self.size == 0 {
             return None;
         }
-        Some(Range::new(self.base, self.base.checked_add(self.size)? - 1))
+        Some(Range::new(self.base, self.base.checked_add(self.size - 1)?))
     }
     fn contains(&self, a: u64) -> bool {
         match self.range() {
